@@ -329,6 +329,9 @@ def _op_matrix(op, S):
         if M.shape != (n, n):
             raise NoModel('non-square matrix')
         return M.tolist()
+    from odl.operator.operator import OperatorLeftScalarMult, OperatorRightScalarMult
+    if isinstance(op, (OperatorLeftScalarMult, OperatorRightScalarMult)) and op.is_linear:
+        return (float(op.scalar) * np.array(_op_matrix(op.operator, S), dtype=float)).tolist()
     if isinstance(op, odl.IdentityOperator):
         return np.eye(n).tolist()
     if isinstance(op, odl.ScalingOperator):
